@@ -75,6 +75,27 @@ Section Generic.
     f_equal. apply IH.
   Qed.
 
+  (* the fan has exactly len - 2 triangles and the j-th is (x0, x_{j+1}, x_{j+2}): every listed corner
+     is used, whatever its coordinates are (no corner is dropped because it "looks like" another
+     one, no triangle is skipped because it is small) *)
+  Lemma c05_fan_length {A} (l : list A) : length (c05_fan l) = (length l - 2)%nat.
+  Proof.
+    destruct l as [|x0 rest]; [reflexivity|]. cbn [c05_fan]. rewrite map_length, combine_length.
+    destruct rest as [|a rest]; [reflexivity|]. cbn [tl length]. lia.
+  Qed.
+
+  Lemma c05_fan_nth {A} (d : A) (l : list A) j :
+    (j + 2 < length l)%nat ->
+    nth j (c05_fan l) (d, d, d) = (nth 0 l d, nth (j + 1) l d, nth (j + 2) l d).
+  Proof.
+    destruct l as [|x0 rest]; cbn [length]; [lia|]. intros H. cbn [c05_fan].
+    rewrite <- (@c05_pairs_seq A d rest), map_map.
+    set (f := fun j0 : nat => (x0, fst (nth j0 rest d, nth (S j0) rest d), snd (nth j0 rest d, nth (S j0) rest d))).
+    rewrite (nth_indep _ (d, d, d) (f 0%nat)) by (rewrite map_length, seq_length; lia).
+    rewrite map_nth, seq_nth by lia. unfold f. cbn [fst snd Nat.add nth].
+    replace (j + 1)%nat with (S j) by lia. replace (j + 2)%nat with (S (S j)) by lia. reflexivity.
+  Qed.
+
   (* coords_type = "spherical" is the Cartesian computation on the converted corners *)
   Lemma c05_face_area_coords rule order f xs :
     c05_face_area O rule order (Some f) xs =
@@ -197,6 +218,19 @@ Section Generic.
       - fold dflt. destruct dflt; reflexivity.
       - rewrite D. reflexivity.
     Qed.
+    (* compute_face_areas / calculate_total_face_area keep no memo: their answer after ANY history
+       is the answer on a fresh grid (and they leave the state untouched) *)
+    Lemma c05_compute_history_independent ops rule order latlon :
+      c05_step O fixdim conv g (c05_run O fixdim conv g c05_init ops) (C05_compute rule order latlon) =
+      (c05_run O fixdim conv g c05_init ops,
+       snd (c05_step O fixdim conv g c05_init (C05_compute rule order latlon))).
+    Proof. cbn [c05_step]. destruct (c05_compute O fixdim conv g rule order latlon); reflexivity. Qed.
+
+    Lemma c05_total_history_independent ops rule order :
+      c05_step O fixdim conv g (c05_run O fixdim conv g c05_init ops) (C05_total rule order) =
+      (c05_run O fixdim conv g c05_init ops,
+       snd (c05_step O fixdim conv g c05_init (C05_total rule order))).
+    Proof. cbn [c05_step]. destruct (c05_compute O fixdim conv g rule order c05_default_latlon); reflexivity. Qed.
   End Cache.
 
   (* ======================================================================================== *)
@@ -650,3 +684,20 @@ Example c05_cache_nonvacuous :
                           [C05_compute C05_gaussian 3 true; C05_total C05_triangular 8; C05_get_jacobian])
                  C05_get_areas) = C05_areas [a] /\ 3 * c05_S / 2 < a.
 Proof. eexists. split; [vm_compute; reflexivity|reflexivity]. Qed.
+
+(* the fan of a quadrilateral whose first and last corners share x and y (mirror images across the
+   equator) still has its two triangles, the second one ending in the last corner *)
+Example c05_fan_nonvacuous :
+  let q := [(3, 4, -5); (6, 1, -5); (6, 1, 5); (3, 4, 5)] in
+  length (c05_fan q) = 2%nat /\ nth 1 (c05_fan q) ((0, 0, 0), (0, 0, 0), (0, 0, 0)) = ((3, 4, -5), (6, 1, 5), (3, 4, 5)).
+Proof. split; reflexivity. Qed.
+
+(* history independence is about a machine that computes: after a history the gaussian-3 request on
+   the one-face example grid returns a positive area, the same as on the fresh grid *)
+Example c05_history_nonvacuous :
+  exists a j s,
+    c05_step c05_fx true c05_ex_conv c05_ex_grid
+             (c05_run c05_fx true c05_ex_conv c05_ex_grid c05_init
+                      [C05_get_areas; C05_compute C05_triangular 8 false; C05_total C05_gaussian 2])
+             (C05_compute C05_gaussian 3 true) = (s, C05_pairs [(a, j)]) /\ 3 * c05_S / 2 < a.
+Proof. eexists. eexists. eexists. split; [vm_compute; reflexivity|reflexivity]. Qed.
